@@ -124,9 +124,15 @@ def analyse_types(pid, suite, search=True):
         if len(samples) < 4 and nontrivial and (len(samples) == 0 or n_cmp % 997 == 0):
             samples.append({'case': l[:300], 'model': m[:300], 'impl': r[:300]})
     ov, n_oracle = oracles.ORACLES[pid](ctx)
+    tmap = dict(suite['shapes'])
+    known_reproduced = set()
     for cid, msg in ov:
-        viol.append({'what': msg, 'case': ctx.line.get(cid, cid), 'impl': suite['rres'].get(cid),
-                     'model': suite['mres'].get(cid), 'concrete': True, 'source': 'oracle'})
+        v = {'what': msg, 'case': ctx.line.get(cid, cid), 'impl': suite['rres'].get(cid),
+             'model': suite['mres'].get(cid), 'concrete': True, 'source': 'oracle'}
+        kc = oracles.classify(pid, tmap.get(suite['meta'].get(cid, {}).get('shape')), v)
+        if kc:
+            v['known_class'] = kc
+        viol.append(v)
     oracle_ids = set(cid for cid, _ in ov)
     for cid, l, d in disagree:
         if cid in oracle_ids:
